@@ -35,7 +35,8 @@ EXPLANATION = (
     "function that may return NULL (least fixed point over `return`) is dereferenced while it may still be NULL. (E2t) every strncpy into a fixed char array with a constant size is followed, on every path to the next use of the array, by a store of 0 at an index not above that size - or cannot need one (literal source shorter than the size; zero-initialised storage whose tail is never written; a constructor-established terminator beyond the size; identifier sources under the identifier-length assumption). Not decided: heap-block destinations beyond two idioms (listed as heap_not_decided), parser "
     "stack growth, generated lexer internals, hash.c internals, bounded time, signed overflow."
     " (R2, inter-procedural) a pointer handed to a callee that keeps it - least fixed point over the call graph of: the parameter is assigned to a global, a member or an array element that outlives the call, or passed on to such a parameter - is not freed while that location can still hold it (a self-test subject under scv/selftest/c06 keeps the rule exercised: it has no instance on the unchanged tree). (R6N) a local pointer is not dereferenced where every definition that reaches the dereference is the null constant (variables whose address is taken are not decided)."
-    " (R5c) every loop that follows the head / base links of the type graph (links the parser builds from names, so an invalid schema can make them cyclic) is in a frozen table with the reason why it ends; for walks that run during resolution the reason is re-verified: the loop condition tests the resolve-failed mark of the node it stands on. A new, unlisted walk is a violation until it is reviewed. (R2b, engine of C05 R9) a freed local or a copy of it is not used before it is re-assigned.")
+    " (R5c) every loop that follows the head / base links of the type graph (links the parser builds from names, so an invalid schema can make them cyclic) is in a frozen table with the reason why it ends; for walks that run during resolution the reason is re-verified: the loop condition tests the resolve-failed mark of the node it stands on. A new, unlisted walk is a violation until it is reviewed. (R2b, engine of C05 R9) a freed local or a copy of it is not used before it is re-assigned."
+    " (R5d) every function of the resolver that calls itself for each element of a list an invalid schema can make cyclic (sub/supertypes, USE/REFERENCE schemas, select items) sets a visited mark first, threads a visited list, or - entity graph - runs after the loop check, whose reporting branch must unlink the closing link from both lists (re-verified).")
 
 ENTRIES = ["main", "EXPRESSparse", "EXPRESSresolve", "print_file", "EXPRESSinit_init"]
 IDENT = {
@@ -574,6 +575,7 @@ def r6_null_initialised(prog, res, reachable, nn, rule="R6.null_initialised_loca
 # invalid schema can make them cyclic (TYPE a = b; TYPE b = a;  TYPE a = LIST OF a;).  Each such loop is frozen here with the reason
 # why it ends; "mark" entries are re-verified: the loop condition must test the resolve-failed mark of the node it stands on.
 R5C_WALKS = {
+    "TYPE_resolve|u.type.head": ("mark", "same walk as below: it follows renames and aggregate base types alike (fix b9863b53)"),
     "TYPE_resolve|u.type.body.base": ("mark", "runs while the types are being resolved; the nodes of a cycle that does not contain the start type have "
                                               "been resolved (recursively, just before) and carry the resolve-failed mark, which ends the walk"),
     "TYPEget_ancestor|u.type.head": ("resolved", "generators only: runs after resolution succeeded; a rename cycle is an ERROR (fix 1bdf5cb1) and the back end is not entered"),
@@ -600,40 +602,120 @@ def r5c_graph_walks(prog, res):
                 for a in walk(part) if part is not None else []:
                     if a["k"] != "Assign" or a.get("op", "=") != "=":
                         continue
-                    l, r = strip(a["ch"][0]), strip(a["ch"][1])
-                    while r is not None and r["k"] == "Cast" and r.get("ch"):
-                        r = strip(r["ch"][0])
-                    if l is None or l["k"] != "Ref" or r is None or r["k"] != "Member":
+                    l, r0 = strip(a["ch"][0]), strip(a["ch"][1])
+
+                    def arms(r):
+                        while r is not None and r["k"] in ("Cast", "Paren") and r.get("ch"):
+                            r = strip(r["ch"][0])
+                        if r is not None and r["k"] == "Cond" and len(r.get("ch") or []) == 3:
+                            return arms(r["ch"][1]) + arms(r["ch"][2])
+                        return [r] if r is not None else []
+                    for r in arms(r0):
+                      if l is None or l["k"] != "Ref" or r is None or r["k"] != "Member":
                         continue
-                    ap = access_path(r)
-                    if not ap or ap.split(".")[0] != l.get("d"):
+                      ap = access_path(r)
+                      if not ap or ap.split(".")[0] != l.get("d"):
                         continue
-                    fields = ".".join(ap.split(".")[1:])
-                    if fields not in R5C_FIELDS:
+                      fields = ".".join(ap.split(".")[1:])
+                      if fields not in R5C_FIELDS:
                         continue
-                    key = "%s|%s" % (f.name, fields)
-                    if (key, f.relfile(), lp["l"]) in seen:
-                        continue
-                    seen.add((key, f.relfile(), lp["l"]))
-                    n += 1
-                    ent = R5C_WALKS.get(key)
-                    if ent is None:
-                        res.add("R5c.graph_walk_terminates", "R5c|%s|%s" % (f.relfile(), key), f.where(lp), False,
-                                "`%s = %s->%s` in a loop follows links that an invalid schema can make cyclic, and the loop is not in the table of "
-                                "reviewed walks (scv/rules/c06.py R5C_WALKS): say why it ends" % (l["n"], l["n"], fields.replace(".", "->")))
-                        continue
-                    kind, why = ent
-                    ok = True
-                    if kind == "mark":
-                        # the condition tests the resolve-failed mark of the node the walk stands on
-                        ok = cond is not None and any(y["k"] == "Member" and y.get("n") == "resolved" and
-                                                      (access_path(y) or "").split(".")[0] == l.get("d") for y in walk(cond))
-                    res.add("R5c.graph_walk_terminates", "R5c|%s|%s" % (f.relfile(), key), f.where(lp), ok,
-                            "reviewed walk over %s: %s" % (fields, why) if ok else
-                            "the walk `%s = %s->%s` no longer tests the resolve-failed mark of the node it stands on: a chain that runs into a cycle "
-                            "the start type is not part of (a = LIST OF b; b = SET OF c; c = BAG OF b) is followed for ever"
-                            % (l["n"], l["n"], fields.replace(".", "->")), assume=None if kind == "mark" else why)
+                      if True:
+                          key = "%s|%s" % (f.name, fields)
+                          if (key, f.relfile(), lp["l"]) in seen:
+                              continue
+                          seen.add((key, f.relfile(), lp["l"]))
+                          n += 1
+                          ent = R5C_WALKS.get(key)
+                          if ent is None:
+                              res.add("R5c.graph_walk_terminates", "R5c|%s|%s" % (f.relfile(), key), f.where(lp), False,
+                                      "`%s = %s->%s` in a loop follows links that an invalid schema can make cyclic, and the loop is not in the table of "
+                                      "reviewed walks (scv/rules/c06.py R5C_WALKS): say why it ends" % (l["n"], l["n"], fields.replace(".", "->")))
+                              continue
+                          kind, why = ent
+                          ok = True
+                          if kind == "mark":
+                              # the condition tests the resolve-failed mark of the node the walk stands on
+                              ok = cond is not None and any(y["k"] == "Member" and y.get("n") == "resolved" and
+                                                            (access_path(y) or "").split(".")[0] == l.get("d") for y in walk(cond))
+                          res.add("R5c.graph_walk_terminates", "R5c|%s|%s" % (f.relfile(), key), f.where(lp), ok,
+                                  "reviewed walk over %s: %s" % (fields, why) if ok else
+                                  "the walk `%s = %s->%s` no longer tests the resolve-failed mark of the node it stands on: a chain that runs into a cycle "
+                                  "the start type is not part of (a = LIST OF b; b = SET OF c; c = BAG OF b) is followed for ever"
+                                  % (l["n"], l["n"], fields.replace(".", "->")), assume=None if kind == "mark" else why)
+
     res.floor("R5c.graph_walk_terminates", "loops that follow head / base links of the type graph", n, 4)
+
+
+# lists of the resolver's graph that an invalid schema can make cyclic (built from names): entity sub/supertypes, schema USE / REFERENCE
+# lists, select items
+R5D_LISTS = {"supertypes": "entity", "subtypes": "entity", "use_schemas": "schema", "ref_schemas": "schema", "body.list": "select"}
+
+
+def r5d_recursion_over_graph_lists(prog, res):
+    """A function of the resolver that calls itself for each element of one of those lists comes back from a cyclic graph only if it
+    (a) sets a visited mark (search_id / mark / symbol.resolved) on its own node before it descends, (b) threads a list of the nodes
+    it has seen and consults it, or (c) - entity graph only - runs after the pass that reports sub/supertype loops, *and that pass
+    takes the closing link out of the graph*: (c) is re-verified, the branch of ENTITY_check_subsuper_cyclicity that reports
+    SUBSUPER_LOOP must unlink from both lists.  Mutual USE (a <-> b) with an undefined USEd item, and e1 SUBTYPE OF (e2) with
+    e2 <-> e3, both ended all four tools with SIGSEGV before fixes e664c966 and fcd4a2fc."""
+    # premise for (c)
+    chk = prog.one("ENTITY_check_subsuper_cyclicity")
+    cuts = set()
+    if chk is not None:
+        for c in chk.calls():
+            if c.get("fn") == "ERRORreport_with_symbol" and any(y.get("n") == "SUBSUPER_LOOP" or y.get("m") == "SUBSUPER_LOOP" for y in walk(c)):
+                blk = chk.parent.get(c["i"])
+                while blk is not None and blk["k"] != "Compound":
+                    blk = chk.parent.get(blk["i"])
+                for y in walk(blk) if blk is not None else []:
+                    if y["k"] == "Call" and "unlink" in (y.get("fn") or "").lower():
+                        for z in walk(y):
+                            if z["k"] == "Member" and z.get("n") in ("subtypes", "supertypes"):
+                                cuts.add(z["n"])
+    cut_ok = cuts == {"subtypes", "supertypes"}
+    res.info["r5d_loop_report_cuts"] = sorted(cuts)
+    n = 0
+    counters = {}
+    for f in prog.all_functions():
+        if f.component != "express" or f.cfg is None:
+            continue
+        rec = [c for c in f.calls() if c.get("fk") == f.key]
+        done = set()
+        for c in rec:
+            # the list whose element the call descends into: nearest preceding `Linked_List _l = <member path>` of a LISTdo
+            best = None
+            for y in f.walk():
+                if y["k"] == "Var" and y.get("ch") and y["ch"][0] is not None and y["i"] < c["i"]:
+                    m = strip(y["ch"][0])
+                    while m is not None and m["k"] == "Cast" and m.get("ch"):
+                        m = strip(m["ch"][0])
+                    if m is not None and m["k"] == "Member" and (best is None or y["i"] > best[0]):
+                        best = (y["i"], m)
+            if best is None:
+                continue
+            ap = access_path(best[1]) or ""
+            fld = next((k for k in R5D_LISTS if ap.endswith("." + k)), None)
+            if fld is None or fld in done:
+                continue
+            done.add(fld)
+            n += 1
+            marks = [x for x in f.walk() if x["k"] == "Assign" and strip(x["ch"][0]) is not None and strip(x["ch"][0])["k"] == "Member" and
+                     strip(x["ch"][0]).get("n") in ("search_id", "mark", "resolved", "inheritance") and f.cfg.locate(x) is not None and
+                     f.cfg.reaches(f.cfg.locate(x), f.cfg.locate(c))]
+            vis = [p_ for p_ in f.params if "Linked_List" in (f.tyname(p_["t"]) if isinstance(p_.get("t"), int) else "")
+                   and any(y["k"] == "Call" and y.get("fn") == "LISTadd_last" and any(z["k"] == "Ref" and z.get("d") == p_["d"] for z in walk(y)) for y in f.walk())]
+            how = "mark" if marks else "visited list" if vis else "loop cut" if (R5D_LISTS[fld] == "entity" and cut_ok) else None
+            key = "R5d|%s|%s|%s" % (f.relfile(), f.name, fld)
+            res.add("R5d.recursion_over_graph_lists", key, f.where(c), how is not None,
+                    "%s descends through `%s`: terminates by %s" % (f.name, fld, {
+                        "mark": "a visited mark set on its own node (line %s)" % marks[0]["l"] if marks else "",
+                        "visited list": "a list of the nodes already seen that it threads and consults",
+                        "loop cut": "running after the sub/supertype loop check, which takes the closing link out of the graph when it reports a loop"}.get(how, "")) if how else
+                    "%s calls itself for every element of `%s`, a list that an invalid schema can make cyclic, without a visited mark or list%s: "
+                    "the recursion never comes back from a loop (stack overflow, SIGSEGV)" %
+                    (f.name, fld, "" if R5D_LISTS[fld] != "entity" else
+                     "; and the loop check no longer unlinks both `subtypes` and `supertypes` when it reports a loop (found: %s)" % (sorted(cuts) or "nothing")))
+    res.floor("R5d.recursion_over_graph_lists", "recursions over graph lists in the resolver", n, 15)
 
 
 def selftest(res):
@@ -662,6 +744,7 @@ def run(prog, res, tier):
     r5_recursion_marks(prog, res)
     r5b_stamp_stable(prog, res)
     r5c_graph_walks(prog, res)
+    r5d_recursion_over_graph_lists(prog, res)
     nn = Nullness(prog)
     r6_nullable_elements(prog, res, reachable, nn)
     r6_lookup_results(prog, res, reachable, nn)
